@@ -100,6 +100,20 @@ def check_stream(data, entry='parse_all', cont='list'):
     out = []
     if why:
         out.append(fail('unsound', f'{entry}/{cont} {data[:16]}: {why}', entry=entry))
+    if msgs and entry == 'parse_all':
+        try:
+            snap = [(m.type, dict(vars(m))) for m in msgs]
+            for m in msgs:
+                m.time = 99
+            again = _feed(data, entry, cont)
+            if [(m.type, {**vars(m), 'time': 0}) for m in again] != [(t, {**v, 'time': 0}) for t, v in snap] or any(
+                    a is b for a in again for b in msgs) or any(m.time != 0 for m in again):
+                out.append(fail('not-repeatable', f'{data[:16]}: second parse differs from / shares objects with the first',
+                                entry=entry))
+        except Exception as exc:  # noqa: BLE001
+            out.append(fail('raises', f'second parse of {data[:16]}: {exc!r}', exc=exc_sig(exc)))
+        for m in msgs:
+            m.time = 0
     try:
         first = mido.parse(list(data))
     except Exception as exc:  # noqa: BLE001
